@@ -1,6 +1,6 @@
-(* C11: a concrete history on which the faithful model of Bootstrap does NOT re-deliver the blocks
-   it had delivered (the database block lookup of ProcessSigPool during Bootstrap), and the same
-   history under the proposed guard.  One validator; event 1 carries a signature of block 105 (a
+(* C11: a concrete history on which Bootstrap with the ProcessSigPool of before fix d90db55 does NOT
+   re-deliver the blocks it had delivered (database block lookup during Bootstrap), and the same
+   history with the code as it stands.  One validator; event 1 carries a signature of block 105 (a
    block that the replay creates only after the first batch of 100 events). *)
 From Coq Require Import ZArith List Bool Lia.
 From V Require Import Model.ZMap Model.Quorum Model.HgImpl Model.Recovery Proofs.AdmissionProofs Proofs.RecoveryProofs.
@@ -29,22 +29,33 @@ Proof.
   - intros e H. apply in_map_iff in H. destruct H as [i [<- Hi]]. cbn. apply zseq_in in Hi. exact Hi.
 Qed.
 
-(* after a clean shutdown (the whole log) the blocks re-delivered by Bootstrap carry other indexes *)
-Lemma w_refuted :
-  map b_index (delivered (br_st (recovered 0 w_genesis w_oracle (w_ops 115) 1000))) <>
+(* REGRESSION WITNESS.  ProcessSigPool before fix d90db55 ([recovered_unguarded]): after a clean
+   shutdown (the whole log) the blocks re-delivered by Bootstrap carry other indexes *)
+Lemma w_unguarded_shifted :
+  map b_index (delivered (br_st (recovered_unguarded 0 w_genesis w_oracle (w_ops 115) 1000))) <>
   map b_index (delivered (pre_state 0 w_genesis w_oracle (w_ops 115) 1000)).
 Proof. vm_compute. discriminate. Qed.
 
-Lemma w_refuted_detail :
-  br_ok (recovered 0 w_genesis w_oracle (w_ops 115) 1000) = true /\
-  br_db_block (recovered 0 w_genesis w_oracle (w_ops 115) 1000) = true /\
-  map b_index (skipn 95 (delivered (br_st (recovered 0 w_genesis w_oracle (w_ops 115) 1000)))) =
+Lemma w_unguarded_detail :
+  br_ok (recovered_unguarded 0 w_genesis w_oracle (w_ops 115) 1000) = true /\
+  br_db_block (recovered_unguarded 0 w_genesis w_oracle (w_ops 115) 1000) = true /\
+  map b_index (skipn 95 (delivered (br_st (recovered_unguarded 0 w_genesis w_oracle (w_ops 115) 1000)))) =
     [95; 96; 106; 107; 108; 109; 110; 111; 112; 113; 114; 115; 116; 117; 118; 119; 120] /\
   map b_index (skipn 95 (delivered (pre_state 0 w_genesis w_oracle (w_ops 115) 1000))) =
     [95; 96; 97; 98; 99; 100; 101; 102; 103; 104; 105; 106; 107; 108; 109; 110; 111].
 Proof. vm_compute. repeat split. Qed.
 
-(* a crash in the middle of the 60th operation: fewer than 100 events, everything is re-delivered *)
+(* the same history and crash point with the code as it stands: identical re-delivery, the early
+   signature of block 105 is attached once the replay has re-created that block *)
+Lemma w_guarded_same :
+  let r := recovered 0 w_genesis w_oracle (w_ops 115) 1000 in
+  br_ok r = true /\ br_db_block r = false /\
+  map b_index (skipn 95 (delivered (br_st r))) =
+    [95; 96; 97; 98; 99; 100; 101; 102; 103; 104; 105; 106; 107; 108; 109; 110; 111] /\
+  option_map b_sigs (zget 105 (blocks (br_st r))) = Some [(0, 105)].
+Proof. vm_compute. repeat split. Qed.
+
+(* a crash in the middle of the 52nd operation *)
 Lemma w_example :
   let r := recovered 0 w_genesis w_oracle (w_ops 115) 150 in
   ops_started 0 w_genesis w_oracle (w_ops 115) 150 = 52%nat /\
